@@ -477,6 +477,9 @@ func main() {
 	if approxUnconfirmed > 0 {
 		fmt.Printf("note: %d candidate counterexamples from over-approximated string comparisons did not reproduce natively (discarded)\n", approxUnconfirmed)
 	}
+	if n := interp.SolverStats.Errors; n > 0 {
+		fmt.Printf("NOTE: %d solver queries were answered with an error line (counted as inconclusive, never as a verdict)\n", n)
+	}
 	fmt.Printf("vcheck %s %s: %d harnesses, %d confirmed violations, %d spurious, %d/%d completed-path replays ok, %.1fs\n", *prop, *tier, len(reports), confirmed, spurious, reachOK, reachOK+reachBad, time.Since(t0).Seconds())
 	if len(violLines) > 0 {
 		os.Exit(1)
